@@ -288,7 +288,7 @@ def main(ctx):
            catalog.first("h1", "nbits16"), catalog.first("h1", "nbits17"),
            catalog.first("h2", "p2byte"), catalog.first("h4", "p2byte")]
     sel += ctx.rotate([t for t in toys if t.p >= 257 and t.h == 1],
-                      ctx.pick(1, 6))
+                      ctx.pick(1, 16))
     seen = set()
     cover = []
     for t in sel:
